@@ -105,7 +105,7 @@ Definition K_OTHER := 2.      (* outside the property's domain: out-of-range / n
                                  invalid UTF-8 or base64, non-canonical integer string or key, duplicate member, unsupported key type *)
 Definition K_NULLK := 4.      (* a null member for a declared field *)
 Definition K_NULLREQ := 8.    (* ... for a REQUIRED field *)
-Definition K_NEGZ := 16.      (* String2Int64: the string "-0" for a DOUBLE field *)
+Definition K_NEGZ := 16.      (* the string "-0" at a DOUBLE position: a value under String2Int64, or a key of a map<double,V> *)
 Definition K_UNKNOWN := 32.   (* an undeclared member *)
 Definition K_NULLELEM := 64.  (* null as a list / set element or map value *)
 Definition K_DBLKEY := 128.   (* a map with DOUBLE keys *)
@@ -168,7 +168,8 @@ Definition cls_key (k : jty) (s : list Z) : Z :=
   | JScalar c _ =>
     if c =? T_STRING then (if utf8_valid s then 0 else K_OTHER)
     else if 0 <? int_bits c then cls_int_text (int_bits c) s
-    else if c =? T_DOUBLE then K_DBLKEY
+    else if c =? T_DOUBLE then
+      Z.lor K_DBLKEY (if bytes_eqb s [45; 48] then K_NEGZ else if num_okb s then cls_num_dbl s else K_OTHER)
     else K_OTHER
   | _ => K_OTHER
   end.
@@ -320,8 +321,8 @@ Definition judge_1801 (ds : jdefs) (root ob : Z) (doc : list Z) (nats : list (Z 
     else
       (* native and portable disagree *)
       if has K_OTHER cls then VDrift 1
-      else if has K_DBLKEY cls then (if negb nerr && perr then VKnown 1805 else VBad 2 [])
-      else if negb nerr && perr then (if go_bad_esc doc then VKnown 1802 else VBad 2 [])
+      else if negb nerr && perr then
+        (if has K_DBLKEY cls then VKnown 1805 else if go_bad_esc doc then VKnown 1802 else VBad 2 [])
       else if nerr && negb perr then (if has K_NULLREQ cls && negb (o_wreq o) then VKnown 1801 else VBad 2 [])
       else
         match pj, safe_decode on, safe_decode op with
@@ -331,15 +332,15 @@ Definition judge_1801 (ds : jdefs) (root ob : Z) (doc : list Z) (nats : list (Z 
           let fuel := S (length doc) in
           let nz := has K_NEGZ cls in
           let same (v : tval) := bytes_eqb (encode (if nz then norm_negz v else v)) (if nz then encode (norm_negz vp) else op) in
-          (* without the null-member quirk (finding 1801 is repaired in the tree): big-integer quirk, then sign of zero *)
+          (* candidates in this order: no structural quirk (sign of zero only, 1803); big-integer quirk (1806); null-member quirk
+             (1801); both.  The first candidate that reproduces the portable output names the finding. *)
           let vb := if has K_BIGINT cls then quirk false true fuel ds (JStruct root) j vn else vn in
-          if same vb then
-            (if negb (bytes_eqb (encode vb) (encode vn)) then VKnown 1806 else if nz then VKnown 1803 else VBad 2 [])
-          else
-          (* with the null-member quirk first *)
           let v1 := if has K_NULLK cls then quirk true false fuel ds (JStruct root) j vn else vn in
           let v2 := if has K_BIGINT cls then quirk false true fuel ds (JStruct root) j v1 else v1 in
-          if same v2 && negb (bytes_eqb (encode v1) (encode vn)) then VKnown 1801
+          if nz && same vn then VKnown 1803
+          else if same vb && negb (bytes_eqb (encode vb) (encode vn)) then VKnown 1806
+          else if same v1 && negb (bytes_eqb (encode v1) (encode vn)) then VKnown 1801
+          else if same v2 && negb (bytes_eqb (encode v1) (encode vn)) then VKnown 1801
           else VBad 2 [FB (encode vb)]
         | _, _, _ => VBad 2 []
         end
@@ -365,12 +366,54 @@ Fixpoint strict18 (v : tval) : bool :=
   | _ => true
   end.
 
+(* finding 1808: quirk model of the native skipper on a map whose declared count has the top bit set (negative as int32, which SkipGo
+   rejects) and whose key or value type is not fixed-width: the pending-item counter  count * 2 - 1  is stored in a uint32
+   (native/thrift_skip.c: `st[sp].n = np * 2 - 1`), so the count is taken modulo 2^31 and  count - 2^31  pairs are skipped
+   (count = 2^31 exactly leaves 2^32 - 1 pending items and fails at the end of the input).  Everything else as the model's skip. *)
+Fixpoint skip_nq (d : nat) (t : Z) (bs : list Z) {struct d} : option (list Z) :=
+  match d with
+  | O => None
+  | S d' =>
+    if t =? T_STRUCT then skip_fields (skip_nq d') (S (length bs)) bs
+    else if t =? T_MAP then
+      match bs with
+      | kt :: vt :: r =>
+        match take 4 r with
+        | None => None
+        | Some (x, r2) =>
+          let u := dec_uint x in
+          let ks := fixed_size kt in let vs := fixed_size vt in
+          if (ks >? 0) && (vs >? 0) then (if u <? 2 ^ 31 then drop (u * (ks + vs)) r2 else None)
+          else
+            let sz := if u <? 2 ^ 31 then u else u - 2 ^ 31 in
+            if (2 ^ 31 <=? u) && (sz =? 0) then None
+            else if sz >? zlen r2 then None
+            else skip_pairs (skip_nq d') (Z.to_nat sz) kt vt r2
+        end
+      | _ => None
+      end
+    else if (t =? T_SET) || (t =? T_LIST) then
+      match bs with
+      | et :: r =>
+        match skip_count r with
+        | None => None
+        | Some (sz, r2) =>
+          let es := fixed_size et in
+          if es >? 0 then drop (sz * es) r2
+          else if sz >? zlen r2 then None
+          else skip_elems (skip_nq d') (Z.to_nat sz) et r2
+        end
+      | _ => None
+      end
+    else skip 1%nat t bs           (* scalars and strings: as the model *)
+  end.
+
 Definition pair_eqb (a b : Z * Z) : bool := (fst a =? fst b) && (snd a =? snd b).
 
 (* the verdict, given the model's skip result [sk] (rest of the input), the model's decoding [dec] of the same bytes (delayed), the model's
    skip without the depth limit [deep] (delayed), the input length,
    SkipGo's (err, consumed) and the (err, consumed) of the SkipNative flavours that were run *)
-Definition judge_1802 (sk : option (list Z)) (dec : unit -> option (tval * list Z)) (deep : unit -> option (list Z)) (len eg ng : Z) (nats : list (Z * Z)) : verdict :=
+Definition judge_1802 (sk : option (list Z)) (dec : unit -> option (tval * list Z)) (deep nq : unit -> option (list Z)) (len eg ng : Z) (nats : list (Z * Z)) : verdict :=
   if negb (all_same pair_eqb nats) then VBad 4 [] else
   match sk with
   | Some r =>
@@ -391,7 +434,12 @@ Definition judge_1802 (sk : option (list Z)) (dec : unit -> option (tval * list 
           (1024 frames, and the last element of a container reuses its frame) — it skips the value, by exactly its length *)
        match deep tt with
        | Some r => if forallb (fun x => (fst x =? 0) && (snd x =? len - zlen r)) nats then VKnown 1807 else VBad 5 [FZ 1]
-       | None => VBad 5 [FZ 1]
+       | None =>
+         (* finding 1808: a map count with the top bit set wraps in the native skipper's uint32 counter *)
+         match nq tt with
+         | Some r => if forallb (fun x => (fst x =? 0) && (snd x =? len - zlen r)) nats then VKnown 1808 else VBad 5 [FZ 1]
+         | None => VBad 5 [FZ 1]
+         end
        end)
   end.
 
@@ -403,7 +451,7 @@ Definition judge_1802 (sk : option (list Z)) (dec : unit -> option (tval * list 
 Definition check_1802 (fs : list field) : verdict :=
   match fs with
   | [FZ t; FB bs; FZ mask; FZ eg; FZ ng; FZ e0; FZ n0; FZ e1; FZ n1; FZ e2; FZ n2] =>
-    judge_1802 (skip_go t bs) (fun _ => decode (S (length bs)) t bs) (fun _ => skip (S (length bs)) t bs) (zlen bs) eg ng (sel mask [(e0, n0); (e1, n1); (e2, n2)])
+    judge_1802 (skip_go t bs) (fun _ => decode (S (length bs)) t bs) (fun _ => skip (S (length bs)) t bs) (fun _ => skip_nq (S (length bs)) t bs) (zlen bs) eg ng (sel mask [(e0, n0); (e1, n1); (e2, n2)])
   | _ => VBad 99 []
   end.
 
